@@ -298,6 +298,105 @@ def r11_5(rep: Report) -> None:
                  'checksum is not the first 8 bytes of AES-ECB(key, little-endian kid)', cs)
 
 
+def r11_6(rep: Report) -> None:
+    """PlayReady key-seed algorithm (Microsoft, "PlayReady key seed"): with T = the first 30 bytes of
+    the seed and K = the key id as little-endian GUID bytes, A = SHA256(T|K), B = SHA256(T|K|T),
+    C = SHA256(T|K|T|K), key[i] = A[i]^A[i+16]^B[i]^B[i+16]^C[i]^C[i+16].  Decided: the sequence of
+    update() inputs of each hash object (through .copy()), the truncation, and the XOR terms."""
+    from ..idioms import hash_update_sequences
+    rid = 'R11.6'
+    rel = 'dashlive/drm/playready.py'
+    tree = rep.repo.tree(rel)
+    cls = need(find_class(tree, 'PlayReady'), 'PlayReady')
+    fn = need(find_func(cls, 'generate_content_key'), 'PlayReady.generate_content_key')
+    construct = f'{rel}::PlayReady.generate_content_key'
+    params = [a.arg for a in fn.args.args]
+    if len(params) < 3:
+        raise AnalysisError('generate_content_key(clz, keyId, keySeed) signature changed')
+    kid, seed = params[1], params[2]
+    # truncation
+    trunc = None
+    for n in ast.walk(fn):
+        if isinstance(n, ast.Assign) and isinstance(n.value, ast.Subscript) \
+                and norm(n.value.value) == seed and isinstance(n.value.slice, ast.Slice):
+            sl = n.value.slice
+            if sl.lower is None and isinstance(sl.upper, ast.Constant) and sl.upper.value == 30 and sl.step is None:
+                trunc = norm(n.targets[0])
+    if trunc is None:
+        rep.fail(rid, construct, 'seed truncated to 30 bytes',
+                 f'no `{seed}[:30]` truncation of the key seed is assigned', fn)
+        return
+    rep.ok(rid, construct, 'seed truncated to 30 bytes', f'{trunc} = {seed}[:30]')
+    le = [n for n in ast.walk(fn) if isinstance(n, ast.Assign) and norm(n.targets[0]) == kid
+          and isinstance(n.value, ast.Call) and (call_name(n.value) or '').endswith('hex_to_le_guid')
+          and any(k.arg == 'raw' and isinstance(k.value, ast.Constant) and k.value.value is True
+                  for k in n.value.keywords)]
+    if le:
+        rep.ok(rid, construct, 'key id hashed as little-endian GUID bytes')
+    else:
+        rep.fail(rid, construct, 'key id hashed as little-endian GUID bytes',
+                 f'`{kid}` is no longer converted with hex_to_le_guid(raw=True) before hashing', fn)
+    seqs = hash_update_sequences(fn)
+    if seqs is None:
+        rep.note('R11.6: hash objects are updated inside branches/loops - input sequences not decided')
+        rep.ok(rid, construct, 'hash inputs', 'not decided (non straight-line)')
+        return
+    want = {(trunc, kid): 'A', (trunc, kid, trunc): 'B', (trunc, kid, trunc, kid): 'C'}
+    # digests actually used in the XOR
+    outs: dict[str, str] = {}
+    for n in ast.walk(fn):
+        if isinstance(n, ast.Assign) and isinstance(n.targets[0], ast.Name):
+            for c in ast.walk(n.value):
+                if isinstance(c, ast.Call) and (call_name(c) or '').endswith('.digest'):
+                    outs[n.targets[0].id] = call_name(c)[:-7]
+    xor_terms: set[tuple[str, str]] = set()
+    xor_node = None
+    for n in ast.walk(fn):
+        if isinstance(n, ast.Assign) and isinstance(n.value, ast.BinOp) and isinstance(n.value.op, ast.BitXor):
+            xor_node = n
+            for t in ast.walk(n.value):
+                if isinstance(t, ast.Subscript) and isinstance(t.value, ast.Name):
+                    xor_terms.add((t.value.id, norm(t.slice)))
+    if xor_node is None:
+        rep.fail(rid, construct, 'xor fold', 'the XOR fold of the three digests is gone', fn)
+        return
+    roles: dict[str, str] = {}
+    for outvar in sorted({v for v, _ in xor_terms}):
+        h = outs.get(outvar)
+        seq = tuple(seqs.get(h, ())) if h else ()
+        role = want.get(seq)
+        if role is None:
+            rep.fail(rid, construct, f'hash inputs of {outvar}',
+                     f'`{outvar}` is the digest of update({", ".join(seq) or "?"}); the key-seed '
+                     f'algorithm hashes only ({trunc}|{kid}), ({trunc}|{kid}|{trunc}) and '
+                     f'({trunc}|{kid}|{trunc}|{kid}) - an untruncated or re-ordered input changes every '
+                     'derived key', xor_node)
+        else:
+            roles[outvar] = role
+            rep.ok(rid, construct, f'hash inputs of {outvar}', f'SHA-{role}: ' + '|'.join(seq))
+    if sorted(roles.values()) == ['A', 'B', 'C']:
+        rep.ok(rid, construct, 'three distinct digests A, B, C')
+    elif len(roles) == len({v for v, _ in xor_terms}):
+        rep.fail(rid, construct, 'three distinct digests A, B, C',
+                 f'the XOR fold combines digests {sorted(roles.values())}, not exactly A, B and C', xor_node)
+    idxs = {i for _, i in xor_terms}
+    lo = [i for i in idxs if '+' not in i]
+    hi = [i for i in idxs if '+' in i]
+    consts = {}
+    for st in cls.body:
+        if isinstance(st, ast.Assign) and isinstance(st.value, ast.Constant):
+            consts[norm(st.targets[0])] = st.value.value
+    half_ok = len(lo) == 1 and len(hi) == 1 and hi[0].startswith(lo[0] + ' + ') and \
+        consts.get(hi[0].split(' + ', 1)[1].split('.')[-1], hi[0].split(' + ', 1)[1]) in (16, '16')
+    per = {v: {i for vv, i in xor_terms if vv == v} for v in {v for v, _ in xor_terms}}
+    if half_ok and all(len(x) == 2 for x in per.values()) and len(per) == 3:
+        rep.ok(rid, construct, 'xor fold', 'each digest contributes bytes i and i+16')
+    else:
+        rep.fail(rid, construct, 'xor fold',
+                 f'the XOR fold uses terms {sorted(xor_terms)}: each of the three digests must '
+                 'contribute exactly its bytes i and i+16', xor_node)
+
+
 def analyse(rep: Report) -> None:
     rep.explanation = (
         'Structural side of C11: location gating of each DRM system, agreement of the two '
@@ -311,8 +410,10 @@ def analyse(rep: Report) -> None:
     rep.rule('R11.3', 'templates emit pssh/pro only where the context enables them', floor=12)
     rep.rule('R11.4', 'ClearKey endpoint returns only looked-up keys; decode errors handled', floor=5)
     rep.rule('R11.5', 'GUID byte order equals RFC 4122 bytes_le', floor=3)
+    rep.rule('R11.6', 'PlayReady key-seed algorithm: hash input sequences, truncation and XOR fold', floor=6)
     location_gating(rep, 'R11.1')
     r11_2(rep)
     r11_3(rep)
     r11_4(rep)
     r11_5(rep)
+    r11_6(rep)
